@@ -70,7 +70,19 @@ def write_table(sd):
         meta = json.load(open(os.path.join(sd, name, "meta.json")))
         rr = meta.get("verification", {}).get("rerun")
         if not rr:
-            rows.append((name, "not re-run", "", "", meta.get("summary", "")[:110])); continue
+            # only the first run (tools/try_seeded.py) is recorded: verdict per check, replay names from its output lines
+            first = meta.get("verification", {}).get("checks")
+            if not first:
+                rows.append((name, "not re-run", "", "", meta.get("summary", "")[:110])); continue
+            caught = [c for c, x in first.items() if x.get("verdict") == "VIOLATION"]
+            hows = []
+            for c, x in first.items():
+                for l in x.get("output", []):
+                    if l.startswith("VIOLATION") and "replay=" in l:
+                        hows.append(os.path.basename(l.split("replay=")[1].split()[0]) + ("" if x.get("concrete_replay") else " (no-failing-input-found)"))
+                        break
+            rows.append((name, ", ".join(caught) if caught else "**not caught**", "; ".join(hows), "first run", meta.get("summary", "").replace("|", "/")[:110]))
+            continue
         heads.add(rr["repo_head"])
         v = rr["checks"]
         caught = [c for c, x in v.items() if x["verdict"] == "VIOLATION"]
